@@ -64,4 +64,25 @@ PROPS = {
         "assumptions": ["hand-written model Model/Codec.lean; agreement with fractal/protocol/*.go checked by the correspondence stream on every run",
                         "memory: the frame bound (connection/conn.go) is a regenerated structural fact + the arithmetic theorem C16_frame_bound"],
     },
+    "C18": {
+        "props": ["MassVerif.Props.C18"],
+        "drivers_mod": ["MassVerif.Driver.C18"],
+        "harnesses": [{
+            "name": "hd", "pkg": "harness/hd", "driver": "MassVerif/Driver/C18.lean",
+            "quick": {"n": 60}, "thorough": {"n": 1500}, "search": {"n": 600},
+        }],
+        "level_text": "Unbounded proof (Lean 4) over a model of ExtendedKey as coded (minimal-length scalar bytes, copy-into-buffer data "
+                      "assembly) next to BIP32's CKD: public derivation commutes with private derivation (from the secp256k1 group law); "
+                      "Child equals BIP32 wherever a hardened step's parent scalar is held in 32 bytes (the hypothesis the proof forces; "
+                      "kernel-checked counterexample for a 31-byte parent = known finding); parse(serialize k) is k in canonical form and "
+                      "derives the same children under the same hypothesis; mnemonic sentences of all five sizes decode, by both decoders, "
+                      "to the entropy they encode. Correspondence on every run: real hdkeychain/mnemonic code vs the Lean model with "
+                      "library crypto oracle-fed, plus an independent Go BIP32 reference as the property oracle.",
+        "level_note": "Trusted: Lean kernel; HMAC-SHA512, SHA-256, hash160, base58 and secp256k1 of the Go libraries (parameters; the group "
+                      "law pub((a+b) mod n) = pub a + pub b is assumed); the English word list being 2048 distinct whitespace-free words is "
+                      "checked at run time, not in the kernel.",
+        "trusted_base": ["crypto/hmac, crypto/sha512, crypto/sha256, mass-core pocec (secp256k1), massutil.Hash160, base58: parameters / oracle-fed"],
+        "assumptions": ["hand-written models Model/HD.lean, Model/Mnemonic.lean; agreement with extendedkey.go / mnemonic.go checked by the correspondence stream on every run",
+                        "child scalar = 0 (probability 2^-256) is excluded by hypothesis in C18_neuter_child_comm"],
+    },
 }
